@@ -144,6 +144,11 @@ func c19TreeOps() []TNode {
 		{Path: "out/ff", Kind: "fifo"},
 		{Path: "src/xf", Kind: "link", Target: "../out/ff"},
 		{Path: "out/dir/ff", Kind: "fifo"},
+		{Path: "src/.terraformignore", Kind: "fifo"},                           // the rule file itself is a special file ...
+		{Path: "src/.terraformignore", Kind: "link", Target: "../out/ff"},     // ... or a link to one
+		{Path: "src/.terraformignore", Kind: "dir"},                            // ... or a directory
+		{Path: "src/.terraformignore", Kind: "link", Target: ".terraformignore"}, // ... or a link to itself
+		{Path: "out/dir/.terraformignore", Kind: "fifo"},
 		{Path: "src/nl\nname", Kind: "file", Body: "n"},
 		{Path: "src/-rf", Kind: "file", Body: "n"},
 		{Path: "src/" + n255, Kind: "file", Body: "n"},
